@@ -54,6 +54,17 @@ def run(ctx):
     one = ctx.impl(["from_sources_text\t" + h for h in H])
     chk = ctx.impl(["superset_checked_text\tN\t" + h for h in H])
     supn = ctx.impl(["superset_text\tN\t" + h for h in H])
+    # is_superset against the shape of the RECOVERED tree (what from_str would answer if the parser's
+    # diagnostics were ignored: model run with the F2 switch off): must be false for every rejected text
+    rec = ctx.model(["from_str\t%s\tf3" % h for h in H])
+    recq = [("superset_text\t%s\t%s" % (r[3:], h)) if (r.startswith("OK ") and not fs[i].startswith("OK ")) else None
+            for i, (h, r) in enumerate(zip(H, rec))]
+    rec_res = ctx.impl([l for l in recq if l])
+    for l, r in zip([l for l in recq if l], rec_res):
+        if r != "BOOL 0":
+            ctx.fail("is_superset answers true for a text that from_str rejects (asked against the shape of the recovered tree)",
+                     l, {"text": textlib.unhx(l.split("\t")[2])[:200], "answer": r})
+    ctx.notes["is_superset_recovered_shape_probes"] = len(rec_res)
     own = []       # is_superset against the text's own inferred shape
     for h, r in zip(H, fs):
         own.append("superset_text\t%s\t%s" % (r[3:], h) if r.startswith("OK ") else None)
